@@ -121,6 +121,34 @@ def cps(s: str):
 
 
 # ---------------------------------------------------------------------------
+# evaluating case files: bounded parallelism and a second try when coqc died without a verdict
+# ---------------------------------------------------------------------------
+
+def _bad_idx(name, imports, gen_imports, defs, cases, ok_fun, case_type, shard=400, timeout=900, needs=None, par=4, tries=3):
+    """vlib.coq_bad_idx on groups of at most `par` shards at a time (vlib starts one coqc per shard, 12 at
+    once: several hundred MB each on a machine that other checks share).  A coqc that was killed or timed
+    out printed no Coq error and gave NO verdict: that group is evaluated again (at most `tries` times, after
+    a pause); a Coq error or an unparsable answer is never retried.  Nothing passes without an evaluated answer."""
+    import time as _time
+    bad_all, logs = [], []
+    group = max(1, shard * par)
+    for gi, start in enumerate(range(0, max(len(cases), 1), group)):
+        chunk = cases[start:start + group]
+        for attempt in range(tries):
+            bad, log = vlib.coq_bad_idx(f"{name}_g{gi}", imports, gen_imports, defs, chunk, ok_fun, case_type,
+                                        shard=shard, timeout=timeout, needs=needs)
+            if bad is not None:
+                break
+            verdictless = ("Error" not in log and "unparsable" not in log and "does not build" not in log) or "TIMEOUT" in log
+            if not verdictless or attempt == tries - 1:
+                return None, log
+            _time.sleep(20 * (attempt + 1))
+        bad_all.extend(start + i for i in bad)
+        logs.append(log[-200:])
+    return bad_all, "\n".join(logs)[-2000:]
+
+
+# ---------------------------------------------------------------------------
 # reference lexer = the running CPython
 # ---------------------------------------------------------------------------
 
@@ -131,8 +159,7 @@ def translate_newlines(t: str) -> str:
 
 def py_lex(text: str, bytes_lit: bool = False):
     """(value, len(rest)) of the string literal token at the head of `text` according to the
-    running CPython (tokenize for the extent, compile+eval for the value), or None.
-    Precondition (caller): no CR after the literal (newline translation would shift offsets)."""
+    running CPython (tokenize for the extent, compile+eval for the value), or None."""
     t = translate_newlines(text)
     # the literal is looked at in isolation: characters the compiler refuses anywhere in a
     # source (NUL, lone surrogates) may follow it; cut the text before the first of them
@@ -156,13 +183,20 @@ def py_lex(text: str, bytes_lit: bool = False):
             v = eval(compile(lit, "<c16>", "eval"), {"__builtins__": {}}, {})
     except Exception:
         return None
+    # length of the rest in the ORIGINAL text: newline translation (CRLF / CR -> LF) may have shortened what
+    # follows the literal, so the end of the token is mapped back (the token ends with a quote, never inside CRLF)
+    j = end
+    while j <= len(text) and translate_newlines(text[:j]) != t[:end]:
+        j += 1
+    if j > len(text):
+        return None
     if bytes_lit:
         if not isinstance(v, bytes):
             return None
-        return list(v), len(t) - end
+        return list(v), len(text) - j
     if not isinstance(v, str):
         return None
-    return cps(v), len(t) - end
+    return cps(v), len(text) - j
 
 
 RESTS = ["", "]", ", MISSING)", ": 1}", ")", "\n", " ", "] = 1\n", "'", '"', "''", '""', "'x'", "x", "\\", "#", "}"]
@@ -202,7 +236,7 @@ def lex_input_ok(text: str) -> bool:
 
 def model_tie(ctx: vlib.Ctx):
     rng = ctx.rng
-    n = ctx.budget(500, 6000)
+    n = ctx.budget(500, 4000)
     # ---- repr / ascii
     strings = list(CORPUS) + [c for c in ALPHABET]
     while len(strings) < n:
@@ -372,7 +406,7 @@ HAND_EXPRS = ["(1)", "( 1 , 2 )", "(1,)", "((1))", "((),)", "()", "( )", "(1 2)"
 
 def lit_tie(ctx: vlib.Ctx):
     rng = ctx.rng
-    n = ctx.budget(400, 4000)
+    n = ctx.budget(400, 3000)
     vals = [(), ("it's",), ("a", 1), (("x",), ()), (True, None, -1), ("'", '"', "\\"), (b"\x00'", "\ud800"), 10**40, -(10**20)]
     while len(vals) < n:
         vals.append(rand_lit(rng))
@@ -444,7 +478,7 @@ def lit_tie(ctx: vlib.Ctx):
         cases.append(f"({term}, {coq_nl(cps(t2))})")
         shown.append(text)
     vlib.coq_make(["gen/K10.vo", "theories/DefaultLit.vo"])
-    bad, log = vlib.coq_bad_idx("c16_shape", "PyStrLit PyLit Splice DefaultLit", "From VerifGen Require Import K10.", defs, cases,
+    bad, log = _bad_idx("c16_shape", "PyStrLit PyLit Splice DefaultLit", "From VerifGen Require Import K10.", defs, cases,
                                 "fun c => match shape default_literal_branches (fst c) with Some l => leqb (render_lit (tab_oracle ptab) l) (snd c) | None => false end",
                                 "dval * list N", shard=500, needs=["theories/PyLit.vo", "theories/DefaultLit.vo", "gen/K10.vo"])
     nm_ = "K10-branch-table(shape)-vs-get_field_default_literal"
@@ -575,7 +609,7 @@ def float_law(ctx: vlib.Ctx):
         fl.append(rng.uniform(-1e6, 1e6))
     bad_rt = [x for x in fl if float(repr(x)) != x or math.copysign(1, float(repr(x))) != math.copysign(1, x)]
     cases = [coq_nl(cps(repr(x))) for x in fl]
-    bad, log = vlib.coq_bad_idx("c16_float", "PyStrLit PyLine", "", "Local Open Scope N_scope.\n", cases, "float_text_ok", "list N",
+    bad, log = _bad_idx("c16_float", "PyStrLit PyLine", "", "Local Open Scope N_scope.\n", cases, "float_text_ok", "list N",
                                 shard=1000, needs=["theories/PyLine.vo"])
     name = "float-repr-law (float_text_ok (repr x), float(repr x) == x)"
     if bad is None:
@@ -591,7 +625,7 @@ def float_law(ctx: vlib.Ctx):
 
 def line_tie(ctx: vlib.Ctx):
     rng = ctx.rng
-    n = ctx.budget(700, 6000)
+    n = ctx.budget(700, 4000)
     lines = set()
     for code in GENERATED:
         for ln in code.split("\n"):
@@ -617,7 +651,7 @@ def line_tie(ctx: vlib.Ctx):
         shown.append(t)
         ctx.hist("line_tie", "with-literals" if e else ("rejected/not-modelled" if e is None else "no-literal"))
     ctx.coverage["line_tie_generated_texts"] = {"captured_programs": len(GENERATED), "distinct_lines": len(lines), "literal_tokens_compared": nlit}
-    bad, log = vlib.coq_bad_idx("c16_line", "PyStrLit PyLine", "", "Local Open Scope N_scope.\n", cases, "line_case_ok",
+    bad, log = _bad_idx("c16_line", "PyStrLit PyLine", "", "Local Open Scope N_scope.\n", cases, "line_case_ok",
                                 "list N * option (list lval)", shard=400, needs=["theories/PyLine.vo"])
     name = "line-tokens-model-vs-cpython-tokenizer (generated lines)"
     if bad is None:
@@ -630,8 +664,203 @@ def line_tie(ctx: vlib.Ctx):
     ctx.count(n=len(cases))
 
 
+# ---------------------------------------------------------------------------
+# roles (round 6): the ROLE the text classifier of PyUse.v gives every literal of the generated
+# functions vs the role CPython's own parser gives it (parent node of the ast.Constant)
+# ---------------------------------------------------------------------------
+
+def _ast_role(chain, field, idx, node) -> str:
+    """chain = [(ancestor, field, idx) ...] nearest last; the role of `node` in its parent"""
+    import ast
+    parent = chain[-1][0]
+    if isinstance(parent, ast.Subscript) and field == "slice":
+        return "USub"
+    if isinstance(parent, ast.Call) and field == "args":
+        if idx == 0:
+            return "UGet" if isinstance(parent.func, ast.Attribute) and parent.func.attr == "get" else "UArg"
+        return "UElem"
+    if isinstance(parent, ast.Dict) and field == "keys":
+        return "UDictKey"
+    if isinstance(parent, (ast.Set, ast.List)) and field == "elts":
+        return "UElem"
+    if isinstance(parent, ast.Tuple) and field == "elts":
+        # the first element of a tuple written WITHOUT parentheses stands where the tuple stands
+        if idx == 0 and (parent.lineno, parent.col_offset) == (node.lineno, node.col_offset) and len(chain) > 1:
+            _, pf, pi = chain[-2]
+            return _ast_role(chain[:-1], pf, pi, parent)
+        return "UElem"
+    if isinstance(parent, ast.Compare) and field == "comparators" and isinstance(parent.ops[idx], (ast.Eq, ast.NotEq)):
+        return "UCmp"
+    return "UOther"
+
+
+def py_use_roles(text: str):
+    """[(role, value)] of every string / bytes literal token of `text`, in order, by CPython's PARSER; None
+    when CPython refuses the text or the line model does not cover it (see py_line_literals); "skip" when a
+    literal token is not the start of an ast.Constant (implicit concatenation) - such texts are left out"""
+    import ast
+    vals = py_line_literals(text)
+    if vals is None:
+        return None
+    try:
+        with warnings.catch_warnings():
+            warnings.simplefilter("ignore")
+            tree = ast.parse(text)
+            toks = list(tokenize.generate_tokens(io.StringIO(text).readline))
+    except Exception:
+        return None
+    lines = text.split("\n")
+    role_at = {}
+
+    def visit(node, chain):
+        for field, val in ast.iter_fields(node):
+            items = val if isinstance(val, list) else [val]
+            for idx, ch in enumerate(items):
+                if not isinstance(ch, ast.AST):
+                    continue
+                here = chain + [(node, field, idx)]
+                if isinstance(ch, ast.Constant) and isinstance(ch.value, (str, bytes)):
+                    ln = lines[ch.lineno - 1]
+                    col = len(ln.encode("utf-8")[: ch.col_offset].decode("utf-8", "replace"))
+                    role_at[(ch.lineno, col)] = _ast_role([(a, f, i) for a, f, i in here], field, idx, ch)
+                visit(ch, here)
+    visit(tree, [])
+    out, k = [], 0
+    for t in toks:
+        if t.type == tokenize.STRING:
+            r = role_at.get(t.start)
+            if r is None or k >= len(vals):
+                return "skip"
+            out.append((r, vals[k]))
+            k += 1
+    return out
+
+
+def coq_uses(us) -> str:
+    if us is None:
+        return "None"
+    return "Some [" + "; ".join("(%s, %s)" % (r, ("VB " + coq_nl(list(v))) if isinstance(v, bytes) else ("VS " + coq_nl(cps(v)))) for r, v in us) + "]"
+
+
+USE_HAND = [
+    "value = d.get('a', MISSING)", "kwargs['a'] = value", "x = {'a': 1, 'b': 'c'}", "s = {'a', 'b'}", "f('a', 'b')", "return 'a'",
+    "if value == 'a':\n    pass", "if value != b'a':\n    pass", "x = ('a', 1)", "x = ('a')", "x = ['a', 'b']", "t = typing.Literal['a', 'b']",
+    "budget('a')", "if value.__class__ is ('a').__class__ and value == 'a':\n    pass", "x = 'a', 'b'",
+    "raise ValueError('a') from None", "x = f(y)['a']", "x = f(y)('a')", "x = 'abc'[0]", "d['a']['b'] = 1", "f(k='a')", "x = {**d, 'a': 1}",
+]
+
+
+def use_tie(ctx: vlib.Ctx):
+    rng = ctx.rng
+    n = ctx.budget(250, 1200)
+    whole = sorted(set(GENERATED))
+    rng.shuffle(whole)
+    cases, shown = [], []
+    nlit = 0
+    for t in whole[:n] + USE_HAND:
+        e = py_use_roles(t)
+        if e == "skip":
+            ctx.hist("use_tie", "left-out (implicit concatenation)")
+            continue
+        if e:
+            nlit += len(e)
+            for r, _ in e:
+                ctx.hist("use_tie_roles", r)
+        ctx.hist("use_tie", "with-literals" if e else ("rejected/not-modelled" if e is None else "no-literal"))
+        cases.append(f"({coq_nl(cps(t))}, {coq_uses(e)})")
+        shown.append(t)
+    ctx.coverage["use_tie_generated_texts"] = {"captured_programs": len(GENERATED), "distinct_programs": len(whole), "literal_roles_compared": nlit}
+    bad, log = _bad_idx("c16_use", "PyStrLit PyLine PyUse", "", "Local Open Scope N_scope.\n", cases, "use_case_ok",
+                                "list N * option (list (use * lval))", shard=40, needs=["theories/PyUse.vo"])
+    name = "use-roles-model-vs-cpython-ast (generated functions)"
+
+    def brief(i):
+        t = shown[i]
+        e = py_use_roles(t)
+        return repr(t)[:160] + " expected roles " + str([r for r, _ in (e or [])][:12])
+    if bad is None:
+        ctx.correspondence(name, len(cases), -1, log)
+        ctx.not_shown("correspondence " + name, log)
+    else:
+        ctx.correspondence(name, len(cases), len(bad), "; ".join(brief(i) for i in bad[:4]))
+        if bad:
+            ctx.not_shown("correspondence " + name, "; ".join(brief(i) for i in bad[:4]))
+    ctx.count(n=len(cases))
+
+
+# ---------------------------------------------------------------------------
+# helpers.literal_repr (round 6): the table K116a read from /repo, interpreted by LitRepr.v, vs the
+# real function on real objects (exact builtin values and instances of subclasses whose __repr__ is
+# adversarial text)
+# ---------------------------------------------------------------------------
+
+def literal_repr_tie(ctx: vlib.Ctx):
+    rng = ctx.rng
+    n = ctx.budget(150, 1500)
+    try:
+        from mashumaro.core.meta.helpers import literal_repr
+    except Exception as e:
+        ctx.not_shown("helpers.literal_repr", f"cannot import: {type(e).__name__}: {e}")
+        return
+
+    def sub(base, payload, text):
+        ns = {} if text is None else {"__repr__": (lambda self, _t=text: _t)}
+        return type("Sub" + base.__name__, (base,), ns)(payload)
+    objs = []       # (object, payload, exact, own repr text)
+    strings = list(CORPUS[: n // 3])
+    while len(strings) < n:
+        strings.append(rand_string(rng, 8))
+    for i, s in enumerate(strings):
+        evil = rng.choice(FRAGMENTS) if i % 2 else rand_string(rng, 8)
+        kind = i % 6
+        if kind in (0, 1):
+            objs.append((s, s, True, ""))
+            objs.append((sub(str, s, evil), s, False, evil))
+        elif kind == 2:
+            b = s.encode("utf-8", "surrogatepass")
+            objs.append((b, b, True, ""))
+            objs.append((sub(bytes, b, evil), b, False, evil))
+        elif kind == 3:
+            z = rng.choice([0, 1, -1, 7, 255, -(2 ** 63), 10 ** 30, rng.randrange(-10 ** 6, 10 ** 6)])
+            objs.append((z, z, True, ""))
+            objs.append((sub(int, z, evil), z, False, evil))
+        elif kind == 4:
+            objs.append((sub(str, s, None), s, False, repr(s)))      # subclass without an override
+        else:
+            v = rng.choice([True, False, None])
+            objs.append((v, v, True, ""))
+    cases, shown, texts = [], [], []
+    for o, payload, exact, own in objs:
+        try:
+            t = literal_repr(o)
+        except Exception as e:
+            ctx.not_shown("helpers.literal_repr raised", f"{type(o).__name__}({payload!r}): {type(e).__name__}: {e}")
+            continue
+        if not isinstance(t, str):
+            ctx.not_shown("helpers.literal_repr returned a non-string", repr(t)[:100])
+            continue
+        texts.append(t)
+        cases.append(f"(({coq_lit(payload)}, {'true' if exact else 'false'}, {coq_nl(cps(own))}), {coq_nl(cps(t))})")
+        shown.append(f"{type(o).__name__}({payload!r}) -> {t!r}")
+        ctx.hist("literal_repr_tie", ("exact " if exact else "subclass of ") + type(payload).__name__)
+    tab = sorted({c for t in texts for c in map(ord, t) if c >= 0x80 and chr(c).isprintable()})
+    defs = "Local Open Scope N_scope.\nDefinition ptab : list N := " + coq_nl(tab) + ".\n"
+    bad, log = _bad_idx("c16_litrepr", "PyStrLit PyLit LitRepr", "From VerifGen Require Import K116a.", defs, cases,
+                                "lr_case_ok (tab_oracle ptab) literal_repr_bases literal_repr_hit literal_repr_fallback",
+                                "(lit * bool * list N) * list N", shard=500, needs=["theories/LitRepr.vo", "gen/K116a.vo"])
+    name = "K116a-table(LitRepr.lr_model)-vs-helpers.literal_repr"
+    if bad is None:
+        ctx.correspondence(name, len(cases), -1, log)
+        ctx.not_shown("translation validation " + name, log)
+    else:
+        ctx.correspondence(name, len(cases), len(bad), "; ".join(shown[i][:100] for i in bad[:6]))
+        if bad:
+            ctx.not_shown("translation validation " + name, "; ".join(shown[i][:120] for i in bad[:6]))
+    ctx.count(n=len(cases))
+
+
 def _corr(ctx, name, imports, defs, cases, okf, ctype, show):
-    bad, log = vlib.coq_bad_idx("c16_" + name.split("-vs-")[0].replace("-", "_"), imports, "", defs, cases, okf, ctype,
+    bad, log = _bad_idx("c16_" + name.split("-vs-")[0].replace("-", "_"), imports, "", defs, cases, okf, ctype,
                                 shard=500, needs=["theories/PyStrLit.vo", "theories/PyLit.vo"])
     if bad is None:
         ctx.correspondence(name, len(cases), -1, log)
@@ -989,6 +1218,26 @@ def check():
 """
 
 
+def src_literal_bool():
+    """bool / int Literal values (string independent): literal_repr must render True as True, not as 1 -
+    the generated test compares classes (`value.__class__ is (True).__class__`)"""
+    return header("") + """
+@dataclass
+class A(DataClassDictMixin):
+    x: Literal[True, 2]
+    y: Literal[1, False] = 1
+def check():
+    eq('from_dict True', lambda: A.from_dict({'x': True}).x, True)
+    eq('from_dict 2', lambda: A.from_dict({'x': 2, 'y': False}).y, False)
+    eq('from_dict 1', lambda: A.from_dict({'x': 2, 'y': 1}).y, 1)
+    eq('to_dict', lambda: A(True, False).to_dict(), {'x': True, 'y': False})
+    raises('1 is not True', lambda: A.from_dict({'x': 1}), InvalidFieldValue, 'field_name', 'x')
+    raises('0 is not False', lambda: A.from_dict({'x': 2, 'y': 0}), InvalidFieldValue, 'field_name', 'y')
+    eq('decoder', lambda: BasicDecoder(Literal[True]).decode(True), True)
+    return OUT
+"""
+
+
 def enum_name_ok(s: str) -> bool:
     """names the Enum functional API itself accepts as an ordinary member (it refuses
     _sunder_/dunder names, descriptors and a few reserved words)"""
@@ -1022,7 +1271,7 @@ def install_recorder():
         m = importlib.import_module(mn)
 
         def rec(code, *a, _e=builtins.exec, **k):
-            if isinstance(code, str) and len(GENERATED) < 60000:
+            if isinstance(code, str) and len(GENERATED) < 30000:
                 GENERATED.append(code)
             return _e(code, *a, **k)
         m.exec = rec
@@ -1113,7 +1362,7 @@ def classify(pos: str, s: str, fails) -> dict:
 
 def oracle(ctx: vlib.Ctx, boost: bool = False):
     rng = ctx.rng
-    n = ctx.budget(600, 8000)
+    n = ctx.budget(600, 5000)
     if boost:
         n *= 2
     strings = list(CORPUS)
@@ -1175,6 +1424,15 @@ def oracle(ctx: vlib.Ctx, boost: bool = False):
                          {"entry": "exec(source); check()", "source": src_namedtuple(s, how), "string": s,
                           "position": "namedtuple-as-dict", "observed": fails[:5], "sentinel_hits": len(hits)},
                          {"position": "namedtuple-as-dict", "kind": "string-not-data"})
+    # bool / int Literal values through helpers.literal_repr
+    fails, hits = run_src(src_literal_bool())
+    ctx.count(("literal-bool-int", ""))
+    ctx.hist("positions", "literal-bool-int")
+    if fails or hits:
+        ctx.fail(f"Literal[True, 2] / Literal[1, False]: {fails[:3]}",
+                 {"entry": "exec(source); check()", "source": src_literal_bool(), "string": "", "position": "literal-bool-int",
+                  "observed": fails[:5], "sentinel_hits": len(hits), "expected": "no failures"},
+                 {"position": "literal-bool-int", "kind": "string-not-data"})
     return nfail
 
 
@@ -1182,7 +1440,7 @@ def oracle(ctx: vlib.Ctx, boost: bool = False):
 # the check
 # ---------------------------------------------------------------------------
 
-THEOREMS = ["C16_float_inert", "C16_ident_sites", "C16_ident_site", "C16_line_literal", "C16_line_literal_bytes", "C16_site_line", "C16_render_eval", "C16_sites_full", "C16_site_value", "C16_default_branches_safe", "C16_default_literal_general",
+THEOREMS = ["C16_text_use_bytes", "C16_literal_repr_site", "C16_literal_repr_general", "C16_literal_repr_inert", "C16_literal_repr_eval", "C16_literal_repr_refuted", "C16_use_stable", "C16_text_use", "C16_site_use", "C16_site_use_whole", "C16_key_eq_exact", "C16_float_inert", "C16_ident_sites", "C16_ident_site", "C16_line_literal", "C16_line_literal_bytes", "C16_site_line", "C16_render_eval", "C16_sites_full", "C16_site_value", "C16_default_branches_safe", "C16_default_literal_general",
             "C16_default_literal", "C16_repr_tuple_refuted", "C16_repr_lex", "C16_ascii_lex", "C16_repr_bytes_lex", "C16_repr_clean", "C16_raw_plain_lex",
             "C16_raw_refuted", "C16_sites", "C16_site_literal", "C16_site_guarded", "C16_ident_char_inert",
             "C16_site_literal_bytes"]
@@ -1240,7 +1498,18 @@ def run(ctx: vlib.Ctx):
         "site_ok looks at the static text of the f-string around the value (before: no quote/#/backslash, last char not an identifier "
         "char; after: not a quote), not at text contributed by other placeholders of the same line",
     ]
-    br = ctx.theorems("props/C16_strings.vo", THEOREMS, kernels=["K10"])
+    # a coqc that was killed (memory pressure on a shared machine) or timed out printed no Coq error: no verdict.
+    # Then the build is run again (the recorded obligations of the aborted attempt are dropped first); a Coq
+    # error - which always names a file and a line - is final at once.
+    import time as _time
+    for attempt in range(3):
+        marks = (len(ctx.obligations), len(ctx.unshown), len(ctx.axioms))
+        br = ctx.theorems("props/C16_strings.vo", THEOREMS, kernels=["K10", "K116a"])
+        if br.ok or br.failed_file is not None or attempt == 2:
+            break
+        ctx.notes.append(f"build attempt {attempt + 1} ended without a Coq verdict (killed / timed out), run again: {(br.error or '')[-200:]}")
+        del ctx.obligations[marks[0]:], ctx.unshown[marks[1]:], ctx.axioms[marks[2]:]
+        _time.sleep(30 * (attempt + 1))
     rep = k10_evidence(ctx)
     if not br.ok:
         # say which half broke: the pure string-literal theorems do not depend on /repo
@@ -1263,10 +1532,12 @@ def run(ctx: vlib.Ctx):
             ctx.not_shown("coqchk VerifProps.C16_strings", log[-800:])
     model_tie(ctx)
     lit_tie(ctx)
+    literal_repr_tie(ctx)
     float_law(ctx)
     broken = bool(ctx.unshown)
     oracle(ctx, boost=broken)
     line_tie(ctx)
+    use_tie(ctx)
 
 
 def replay(rep: dict) -> int:
